@@ -63,11 +63,13 @@ def scenarios(layout):
     return s
 
 
-def make_case(rnd, idx, layout, scen):
+def make_case(rnd, idx, layout, scen, long_spans=False):
     sy = rnd.choice([1951, 1963, 1979, 1983, 1991, 1995, 1999, 2003, 2007, 2011, 2019, 2023, 2047])
     if scen.startswith("complete") and rnd.random() < 0.5:
         sy = rnd.choice([1952, 1980, 1996, 2000, 2004, 2024])
     span = rnd.randrange(380, 800) if scen != "preco" else rnd.randrange(560, 800)     # preco: reach the leap year's month ends
+    if long_spans and rnd.random() < 0.3:
+        span = rnd.randrange(800, 2200)
     start, end, ann = _pick_dates(rnd, sy, span)
     eff = _ende_eff(end, ann)
     first = D(sy, 1, 1)
@@ -139,12 +141,12 @@ def make_case(rnd, idx, layout, scen):
 
 def gen_cases(ctx):
     rnd = random.Random(ctx.seed * 7919 + 4)
-    reps = 4 if ctx.thorough else 1
+    reps = 14 if ctx.thorough else 1
     cases = []
     for rep in range(reps):
         for layout in (0, 1, 2):
             for scen in scenarios(layout):
-                cases.append(make_case(rnd, len(cases), layout, scen))
+                cases.append(make_case(rnd, len(cases), layout, scen, ctx.thorough))
     return cases
 
 
